@@ -202,3 +202,47 @@ func TestZZReplay(t *testing.T) {
 		},
 	})
 }
+
+func init() {
+	// revertDisk: the revert target itself is unlinked (target == current head)
+	replayTemplates = append(replayTemplates, replayTemplate{
+		match: func(o *Obligation) bool {
+			return o.Fn == "replica.Replica.revertDisk" && strings.HasPrefix(o.Kind, "callpre:rmDisk")
+		},
+		scripted: true,
+		pkg:      "replica",
+		tags:     "debug",
+		gen: func(o *Obligation, vals map[string]string) (string, bool) {
+			body := `
+func TestZZReplay(t *testing.T) {
+	dir, err := ioutil.TempDir("", "zzreplay")
+	zzMust(t, err)
+	defer os.RemoveAll(dir)
+	r, err := New(true, 4*zzB, zzB, dir, nil, "Backend")
+	zzMust(t, err)
+	zzMust(t, r.SetReplicaMode("RW"))
+	_, err = r.WriteAt(zzFill(7, zzB), 0)
+	zzMust(t, err)
+	zzMust(t, r.Snapshot("s1", true, "t1"))
+	_, err = r.WriteAt(zzFill(8, zzB), zzB)
+	zzMust(t, err)
+	head := r.info.Head
+	_, rerr := r.Revert(head, "t2") // out-of-state request: the head is not a snapshot
+	r.Close()
+	r2, oerr := New(true, 4*zzB, zzB, dir, nil, "Backend")
+	t.Logf("Revert(%q) err=%v; reopen err=%v", head, rerr, oerr)
+	if oerr != nil {
+		t.Fatalf("REPLAY-REPRODUCED: after a refused revert to the head the replica directory cannot be reopened: %v", oerr)
+	}
+	buf := make([]byte, zzB)
+	if _, err := r2.ReadAt(buf, zzB); err != nil || buf[0] != 8 {
+		t.Fatalf("REPLAY-REPRODUCED: after a refused revert to the head acknowledged data is gone (block 1 reads %d, err %v)", buf[0], err)
+	}
+	r2.Close()
+	t.Log("REPLAY-NOT-REPRODUCED")
+}
+`
+			return diskPrelude + body, true
+		},
+	})
+}
